@@ -491,6 +491,8 @@ def oracle_line(cfg, op, out):
         tol2 = cfg["tol"] * cfg["tol"]
         if v and not r2 <= tol2 * (1 + REL):
             fails.append(("cm", "accepts-unsatisfied", "checkMotion returned true although s2 has residual %.3g > tolerance" % math.sqrt(r2)))
+        if v and not valid_py(cfg, s2):
+            fails.append(("cm", "accepts-invalid-end", "checkMotion returned true although s2 itself is invalid"))
         if v and space in ("proj", "atlas"):
             s1 = fl(t[off:off + n])
         if t[0] == "cm2":
@@ -506,6 +508,10 @@ def oracle_line(cfg, op, out):
                 fails.append(("cm", "lastvalid-off-manifold", "lastValid.first has residual %.3g > tolerance" % math.sqrt(resid_sq(cfg["con"], first))))
             if v and (touched or second != SENT_FRAC_BITS):
                 fails.append(("cm", "lastvalid-on-success", "lastValid written although the motion is valid"))
+            if not v and second == SENT_FRAC_BITS:
+                fails.append(("cm", "lastvalid-second-missing", "the motion is invalid but lastValid.second was not written"))
+            if not v and touched != (t[1] == "1"):
+                fails.append(("cm", "lastvalid-first", "the motion is invalid: lastValid.first %s" % ("was not written" if t[1] == "1" else "was written through a null pointer?")))
     elif t[0] == "plan":
         kk = [x for x in head if x.startswith("k=")]
         if kk:
@@ -599,11 +605,17 @@ def driver_lines(cfg, script, out):
                     add("interp %s %s %s %d %s" % (" ".join(t[1:1 + 2 * n]), t[1 + 2 * n], g[2], len(g[4]), " ".join(" ".join(x) for x in g[4])),
                         "r= %s" % " ".join(head[1:1 + n]), (li, "interp"))
         elif t[0] == "cm1":
+            # isValid(s2) is asked first, then isSatisfied(s2), then the geodesic (each only after a yes)
+            vs = [e for e in evs if e[0] == "V"]
             ss = [e for e in evs if e[0] == "S"]
             gs = [e for e in evs if e[0] == "G"]
-            if ss:
-                add("cm1 %s %d %s" % (ss[0][2], 1 if gs else 0, gs[0][2] if gs else "0"),
+            if vs and evs and [e for e in evs if e[0] in ("V", "S", "G")][0][0] == "V":
+                valid = vs[0][2]
+                sat = ss[0][2] if (valid == "1" and ss) else "0"
+                add("cm1 %s %s %d %s" % (valid, sat, 1 if gs else 0, gs[0][2] if gs else "0"),
                     "%s geoCalled=%d" % (head[0], len(gs)), (li, "cm1"))
+            else:
+                add("cm1 none", "%s (no isValid(s2) call recorded first)" % head[0], (li, "cm1"))
             if proj:
                 add("cm1p %s %s" % (" ".join(t[1:1 + 2 * n]), fjv), "%s left=0 miss=0" % head[0], (li, "cm1p"))
         elif t[0] == "cm2":
@@ -615,10 +627,14 @@ def driver_lines(cfg, script, out):
             cf = "none" if all(bits2f(b) == SENT_STATE for b in first) else " ".join(first)
             cs = "none" if second == SENT_FRAC_BITS else second
             exp = "%s first= %s second=%s" % (head[0], cf, cs)
-            if gs and (ss or not gs[0][4]):
+            if gs:
                 g = gs[0]
-                sat = ss[-1][2] if (ss and g[4]) else "0"
-                add("cm2 %s %s %s %s %d %s" % (t[1], " ".join(t[2:2 + 2 * n]), sat, g[2], len(g[4]), " ".join(" ".join(x) for x in g[4])),
+                post = evs[evs.index(g) + 1:]           # after the traversal: isSatisfied(s2), then isValid(s2)
+                ps = [e for e in post if e[0] == "S"]
+                pv = [e for e in post if e[0] == "V"]
+                sat = ps[0][2] if ps else "0"
+                valid = pv[0][2] if pv else "0"
+                add("cm2 %s %s %s %s %s %d %s" % (t[1], " ".join(t[2:2 + 2 * n]), sat, valid, g[2], len(g[4]), " ".join(" ".join(x) for x in g[4])),
                     exp, (li, "cm2"))
             if proj:
                 add("cm2p %s %s %s" % (t[1], " ".join(t[2:2 + 2 * n]), fjv), exp + " left=0 miss=0", (li, "cm2p"))
@@ -946,6 +962,12 @@ def account(ck, cfg, res):
             nontrivial = True
         elif t[0] in ("cm1", "cm2") and head:
             ck.count("%s:%s" % (t[0], head[0]))
+            off = 1 if t[0] == "cm1" else 2
+            s2 = fl(t[off + cfg["n"]:off + 2 * cfg["n"]])
+            if not valid_py(cfg, s2):
+                ck.count("cm:end-state-invalid")
+                if satisfied(cfg, s2):
+                    ck.count("cm:end-state-invalid-but-satisfied")
             nontrivial = True
         elif t[0] == "plan" and head:
             ck.count("plan:%s:%s:%s" % (cfg["space"], t[1], head[0].split("=")[1]))
